@@ -71,6 +71,13 @@ func Classify(r interface{}) string {
 
 func named(g *cur, id, j, x int) { g.emit("d-named " + strconv.Itoa(id) + " " + strconv.Itoa(j) + " x=" + strconv.Itoa(x)) }
 
+// recoverNamed is a package-level function deferred by name which calls recover
+// itself (directly: it must stop the panic).
+func recoverNamed(g *cur, id, j int) {
+	r := recover()
+	g.emit("d-recover-named " + strconv.Itoa(id) + " " + strconv.Itoa(j) + " " + Classify(r))
+}
+
 func deepRecover(g *cur) {
 	// recover called one call deeper than the deferred function: must not stop the panic
 	r := recover()
@@ -150,8 +157,24 @@ func node(g *cur, depth, id int) (res int) {
 	nd := g.next() % 4
 	counter := id * 100
 	for j := 0; j < nd; j++ {
-		kind := g.next() % 11
+		kind := g.next() % 15
 		switch kind {
+		case 11:
+			defer recoverNamed(g, id, j)
+		case 12:
+			// a deferred literal that panics although its function returns normally
+			defer func(jj int) {
+				g.emit("d-late-panic " + strconv.Itoa(id) + " " + strconv.Itoa(jj))
+				panic("late" + strconv.Itoa(id))
+			}(j)
+		case 13:
+			// a deferred builtin that faults: close of an already closed channel
+			cc := make(chan int)
+			close(cc)
+			defer close(cc)
+		case 14:
+			// a deferred host function that panics
+			defer host.BoomStr("hostboomd" + strconv.Itoa(id))
 		case 0:
 			defer func(jj int) { g.emit("d-lit " + strconv.Itoa(id) + " " + strconv.Itoa(jj)) }(j)
 		case 10:
